@@ -76,7 +76,9 @@ TIE_THEOREMS = {".IsReservedWord": "IsReservedWord_eq", "File.isLocal": "isLocal
                 "Group.RenderWithFile": "Group_RenderWithFile_eq", "File.Save": "File_Save_eq",
                 "Dict.render": "Dict_render_eq", "token.render": "token_render_eq",
                 ".NewFile": "NewFile_eq", ".NewFilePath": "NewFilePath_eq", ".NewFilePathName": "NewFilePathName_eq",
-                "File.HeaderComment": "HeaderComment_eq", "File.PackageComment": "PackageComment_eq", "File.CgoPreamble": "CgoPreamble_eq"}
+                "File.HeaderComment": "HeaderComment_eq", "File.PackageComment": "PackageComment_eq", "File.CgoPreamble": "CgoPreamble_eq",
+                "Statement.Render": "Statement_Render_eq", "Group.Render": "Group_Render_eq", "Statement.GoString": "Statement_GoString_eq",
+                "Group.GoString": "Group_GoString_eq", "File.GoString": "File_GoString_eq"}
 syntactic_tie = None
 escalate = 1
 rct = 0
@@ -112,9 +114,11 @@ if prop in TIE_PROPS:
                                            "JenVerif/Tie/TextSrc.lean", "JenVerif/Tie/ImportsSrc.lean", "JenVerif/Tie/NullSrc.lean", "JenVerif/Tie/RenderSrc.lean"]}
     THM_FILE.update({t: "JenVerif/Tie/FileOpsSrc.lean" for t in ("NewFile_eq", "NewFilePath_eq", "NewFilePathName_eq", "HeaderComment_eq", "PackageComment_eq", "CgoPreamble_eq")})
     DEPS["JenVerif/Tie/FileOpsSrc.lean"] = ["JenVerif/Tie/GuessAliasSrc.lean"]
+    THM_FILE.update({t: "JenVerif/Tie/WrapSrc.lean" for t in ("Statement_Render_eq", "Group_Render_eq", "Statement_GoString_eq", "Group_GoString_eq", "File_GoString_eq")})
     DEPS["JenVerif/Tie/DictSrc.lean"] = ["JenVerif/Tie/RenderSrc.lean"] + DEPS["JenVerif/Tie/RenderSrc.lean"]
     DEPS["JenVerif/Tie/TokenSrc.lean"] = ["JenVerif/Tie/RenderSrc.lean"] + DEPS["JenVerif/Tie/RenderSrc.lean"]
     DEPS["JenVerif/Tie/EntrySrc.lean"] = ["JenVerif/Tie/Registry.lean"] + DEPS["JenVerif/Tie/Registry.lean"]
+    DEPS["JenVerif/Tie/WrapSrc.lean"] = ["JenVerif/Tie/EntrySrc.lean", "JenVerif/Tie/FileOpsSrc.lean"] + DEPS["JenVerif/Tie/EntrySrc.lean"]
     gen_broken = rct and ("Gen/SrcRegistry.lean" in tie_out and "error" in tie_out and not bad_files)
     for fn_, thm in TIE_THEOREMS.items():
         tf = THM_FILE[thm]
